@@ -69,7 +69,11 @@ class Check:
                     hit = k
                     break
             (listed if hit else new).append((o, hit))
+        printed = set()
         for o, k in listed:
+            if id(k) in printed:
+                continue
+            printed.add(id(k))
             print("KNOWN-FINDING: property=%s %s [%s @ %s : %s] %s" % (self.prop, k.get("id", ""), o["rule"], o["function"], o["construct"], k["what"]))
         vdir = os.path.join(VERIF, ".work", "violations")
         for i, (o, _) in enumerate(new):
